@@ -1285,4 +1285,31 @@ example : contains ratIsInt (.dict [("b", .discrete 2)]) (.pdict [("b", .arr [] 
 example : contains ratIsInt (.discrete 2) (.arr [] [.fin (-1 : ℚ)]) = false := by decide
 example : contains ratIsInt (.discrete 2) (.list [.arr [] [.fin (1 : ℚ)], .list []]) = false := by decide
 
+/-! ### pre-repair `Discrete.contains` with narrow integer candidates
+
+  `0 <= x < self.n` compared a `bits`-wide unsigned (or signed) candidate `x` with the Python int `n`,
+  which JAX's weak typing cast to the candidate's dtype, i.e. reduced modulo `2^bits` (signed: into
+  `[-2^(bits-1), 2^(bits-1))`).  Membership is about the value: the repaired code compares with `n` as a
+  default-integer array. -/
+
+/-- old upper-bound test for an unsigned `bits`-wide candidate -/
+def legacyDiscreteContainsU (bits n x : Nat) : Bool := decide (x < n % 2 ^ bits)
+
+/-- old upper-bound test for a signed `bits`-wide candidate (`n` wrapped into the signed range) -/
+def legacyDiscreteContainsS (bits : Nat) (n : Nat) (x : Int) : Bool :=
+  let w : Int := ((n : Int) + 2 ^ (bits - 1)) % 2 ^ bits - 2 ^ (bits - 1)
+  decide (0 ≤ x ∧ x < w)
+
+/-- `Discrete(300)` rejected the member 200 given as `uint8`, `Discrete(200)` the member 100 given as
+    `int8`; the model (`contains`, value-based) accepts both -/
+theorem legacy_discrete_rejects_narrow_members :
+    legacyDiscreteContainsU 8 300 200 = false ∧ legacyDiscreteContainsS 8 200 100 = false ∧
+    contains ratIsInt (.discrete 300) (.arr [] [.fin (200 : ℚ)]) = true ∧
+    contains ratIsInt (.discrete 200) (.arr [] [.fin (100 : ℚ)]) = true := by decide
+
+/-- for sizes that fit the candidate's dtype the old test was right -/
+theorem legacy_discrete_ok_when_n_fits (bits n x : Nat) (hn : n < 2 ^ bits) :
+    legacyDiscreteContainsU bits n x = decide (x < n) := by
+  simp [legacyDiscreteContainsU, Nat.mod_eq_of_lt hn]
+
 end Lerax.C14
